@@ -310,4 +310,132 @@ theorem simple_leaf_RT (d : Dialect) (t : ATy) (p : FP) (bs : Bytes) (v : AVal) 
     cases t <;> simp [ATy.simpleLeaf] at hs <;>
       simp [hnb', htt, hst, hset, hbody, universalType]
 
+/-! ## RawValue, strings, times -/
+
+theorem rawValue_RT (d : Dialect) (p : FP) (bs : Bytes) (v : AVal) (rest : Bytes)
+    (h : parseField d .canon .rawValue p bs = .ok (v, rest)) : RT d .rawValue p bs v rest := by
+  simp only [parseField] at h
+  rcases canon_shell d .rawValue p bs _ v rest h with ⟨_, w, rfl, hom, rfl⟩ | ⟨tl, utag, inner, consumed, outer, hh, hk, hcp, hco, hom⟩
+  · exact ⟨[], absent_marshal d .rawValue p w rfl hom, rfl⟩
+  · obtain ⟨hsp, hdr, hc, hl⟩ := header_consumed _ .rawValue p bs _ _ _ _ _ _ hh
+    unfold parseLeaf at hk
+    simp only [] at hk
+    cases hk
+    refine ⟨consumed, ?_, hsp⟩
+    simp only [marshalField, marshalShell]
+    rw [if_neg (by rw [hom]; simp)]
+    simp only [AVal.unwrap]
+    have : consumed.isEmpty = false := by
+      rw [hc]; cases hdr with
+      | nil => simp at hl
+      | cons x xs => rfl
+    simp [this]
+
+theorem wrapAs_tag_irrelevant (p : FP) (c : Bool) (t1 t2 : Nat) (b : Bytes) (h : ¬ (p.tag = none ∨ p.explicit = true)) :
+    wrapAs p c t1 b = wrapAs p c t2 b := by
+  unfold wrapAs
+  cases hpt : p.tag with
+  | none => exact absurd (Or.inl hpt) h
+  | some pt =>
+    have : p.explicit = false := by
+      cases he : p.explicit with
+      | false => rfl
+      | true => exact absurd (Or.inr he) h
+    simp [this]
+
+theorem str_RT (d : Dialect) (p : FP) (bs : Bytes) (v : AVal) (rest : Bytes)
+    (h : parseField d .canon .str p bs = .ok (v, rest)) : RT d .str p bs v rest := by
+  simp only [parseField] at h
+  rcases canon_shell d .str p bs _ v rest h with ⟨_, w, rfl, hom, rfl⟩ | ⟨tl, utag, inner, consumed, outer, hh, hk, hcp, hco, hom⟩
+  · exact ⟨[], absent_marshal d .str p w rfl hom, rfl⟩
+  · obtain ⟨hcw, hsp, hut, hcls⟩ := consumed_wrapAs _ (canon_dialect d) .str p bs (by intro h; cases h) _ _ _ _ _ _ hh hcp hco
+    unfold parseLeaf at hk
+    simp only [Mode.isLax, Mode.isCanon, Bool.true_and] at hk
+    cases hs : parseStringByTag false utag inner with
+    | error e => rw [hs] at hk; cases hk
+    | ok s =>
+      rw [hs] at hk
+      simp only [] at hk
+      by_cases hc : (!(utag == (if tl.cls = 0 then marshalStringTag p s else utag) && marshalStringOK p s &&
+          (utag == tagPrintableString || utag == tagUTF8String || utag == tagIA5String || utag == tagNumericString))) = true
+      · rw [if_pos hc] at hk; cases hk
+      · rw [if_neg hc] at hk
+        cases hk
+        simp only [Bool.not_eq_true, Bool.not_eq_false', Bool.and_eq_true, Bool.or_eq_true, beq_iff_eq] at hc
+        obtain ⟨⟨htag, hok⟩, h4⟩ := hc
+        have hsi : s = inner := parseStringByTag_id utag inner s (by
+          rcases h4 with ((h | h) | h) | h
+          · exact Or.inl h
+          · exact Or.inr (Or.inl h)
+          · exact Or.inr (Or.inr (Or.inl h))
+          · exact Or.inr (Or.inr (Or.inr h))) hs
+        subst hsi
+        have hp : p.timeType = 0 ∧ p.set = false := by
+          simp [canonParams] at hcp; simp [hcp]
+        refine ⟨consumed, ?_, hsp⟩
+        simp only [marshalField, marshalShell]
+        rw [if_neg (by rw [hom]; simp)]
+        simp only [AVal.unwrap, universalType, nilBigInt, hp.1, hp.2]
+        -- the tag `makeField` picks is `marshalStringTag`, and the content test passes
+        have htag1 : (if p.stringType = 0 then
+              (if (List.all s fun b => decide (b.toNat < 128) && isPrintable b false false) = true then (Except.ok tagPrintableString : Except Err Nat)
+               else if utf8Valid s = true then .ok tagUTF8String else .error .other)
+            else .ok p.stringType) = .ok (marshalStringTag p s) := by
+          unfold marshalStringTag marshalStringOK at *
+          by_cases h0 : p.stringType = 0
+          · simp only [h0, if_true, ne_eq, not_true_eq_false, if_false] at hok ⊢
+            by_cases hpr : (List.all s fun b => decide (b.toNat < 128) && isPrintable b false false) = true
+            · simp [hpr]
+            · simp only [hpr, if_false]
+              have : utf8Valid s = true := by
+                simp only [tagIA5String, tagPrintableString, tagNumericString] at hok
+                simpa [hpr] using hok
+              simp [this]
+          · simp [h0]
+        simp only [Bool.false_eq_true, if_false, ne_eq, decide_not, Bool.and_false, tagPrintableString, not_true_eq_false, decide_false]
+        simp only [tagPrintableString] at htag1
+        rw [htag1]
+        simp only [marshalLeafBody, hok, if_true]
+        rw [hcw]
+        simp only [Bool.false_and, Bool.false_eq_true, if_false, universalType]
+        congr 1
+        by_cases hc0 : tl.cls = 0
+        · rw [if_pos hc0] at htag; rw [htag]
+        · exact wrapAs_tag_irrelevant p false _ _ s (fun hh => hc0 (hcls.mpr hh))
+
+theorem time_RT (d : Dialect) (p : FP) (bs : Bytes) (v : AVal) (rest : Bytes)
+    (h : parseField d .canon .time p bs = .ok (v, rest)) : RT d .time p bs v rest := by
+  simp only [parseField] at h
+  rcases canon_shell d .time p bs _ v rest h with ⟨_, w, rfl, hom, rfl⟩ | ⟨tl, utag, inner, consumed, outer, hh, hk, hcp, hco, hom⟩
+  · exact ⟨[], absent_marshal d .time p w rfl hom, rfl⟩
+  · obtain ⟨hcw, hsp, hut, hcls⟩ := consumed_wrapAs _ (canon_dialect d) .time p bs (by intro h; cases h) _ _ _ _ _ _ hh hcp hco
+    unfold parseLeaf at hk
+    simp only [Mode.isLax, Mode.isCanon, Bool.true_and] at hk
+    cases hs : (if utag = tagUTCTime then parseUTCTime inner else parseGeneralizedTime (d.forMode .canon) inner) with
+    | error e => rw [hs] at hk; cases hk
+    | ok tv =>
+      rw [hs] at hk
+      simp only [] at hk
+      have hp : p.stringType = 0 ∧ p.set = false := by
+        simp [canonParams] at hcp; simp [hcp]
+      -- the tag and the text `makeField` / `makeBody` choose for this time
+      generalize hT : (if p.timeType = tagGeneralizedTime ∨ outsideUTCRange tv = true then tagGeneralizedTime else tagUTCTime) = tagT at hk
+      generalize hE : (if p.timeType = tagGeneralizedTime ∨ outsideUTCRange tv = true then encGeneralizedTime tv else encUTCTime tv) = encT at hk
+      by_cases hc : (!((tl.cls != 0 || utag == tagT) && inner == encT)) = true
+      · rw [if_pos hc] at hk; cases hk
+      · rw [if_neg hc] at hk
+        cases hk
+        simp only [Bool.not_eq_true, Bool.not_eq_false', Bool.and_eq_true, Bool.or_eq_true, beq_iff_eq, bne_iff_ne, ne_eq] at hc
+        obtain ⟨htag, hin⟩ := hc
+        refine ⟨consumed, ?_, hsp⟩
+        simp only [marshalField, marshalShell]
+        rw [if_neg (by rw [hom]; simp)]
+        simp only [AVal.unwrap, universalType, nilBigInt, hp.1, hp.2, marshalLeafBody, hT, hE]
+        simp only [Bool.false_eq_true, if_false, ne_eq, not_true_eq_false, decide_false, Bool.and_false, Bool.false_and]
+        rw [hcw, hin]
+        congr 1
+        rcases htag with hne | heq
+        · exact wrapAs_tag_irrelevant p false _ _ encT (fun hh => hne (hcls.mpr hh))
+        · rw [heq]; rfl
+
 end CTV.Der
